@@ -29,7 +29,7 @@ Definition lock_pc (p : pc) : bool := dlocked_pc p || rlocked_pc p.
 Definition token_pc (p : pc) : bool :=
   dlocked_pc p || match p with PW_lock _ | PA_rootpush => true | _ => false end.
 Definition waker_pc (p : pc) : bool :=
-  match p with PA_link _ true _ | PA_probe _ | PA_wake _ _ => true | _ => false end.
+  match p with PA_link _ true _ _ | PA_probe _ | PA_wake _ _ => true | _ => false end.
 Definition unlocking_pc (p : pc) : bool := match p with PW_unlock _ | PR_cbc _ false => true | _ => false end.
 Definition sidelock_pc (p : pc) : bool :=
   match p with
@@ -42,7 +42,7 @@ Definition rpre_pc (p : pc) : bool :=
 Definition sret_pc (p : pc) : bool :=
   match p with PS_sside | PS_sunlock | PS_ret => true | PCrash tag => tag =? 1 | _ => false end.
 Definition dead_pc (p : pc) : bool :=
-  match p with PR_probe _ | PR_wake _ => true | PCrash tag => negb (tag =? 1) | _ => false end.
+  match p with PCrash tag => negb (tag =? 1) | _ => false end.
 Definition owned_of (p : pc) : option Z :=
   match p with
   | PW_tail o | PW_head o | PW_chk o | PW_pop o | PW_run o _ _ | PW_incall o _ _ | PW_next o _ | PW_unlock o | PW_xor o
@@ -51,7 +51,7 @@ Definition owned_of (p : pc) : option Z :=
   end.
 Definition qos_of (p : pc) : option Z :=
   match p with
-  | PA_xchg q | PA_link _ _ q | PA_probe q | PA_wake q _ | PR_bctail q | PR_bcsusp q | PR_bchead q | PR_cbc q _ | PR_bcxor q
+  | PA_xchg q _ | PA_link _ _ q _ | PA_probe q | PA_wake q _ | PR_bctail q | PR_bcsusp q | PR_bchead q | PR_cbc q _ | PR_bcxor q
   | PR_probe q | PR_wake q => Some q
   | _ => None
   end.
